@@ -429,7 +429,7 @@ def main():
             nv = norm(t, v)
             tk = " ".join(toks(t, v))
             if not savable(t, nv):          # an undefined json::value inside: save throws json::bad_value_cast
-                for op in ("rt", "save") + (("srt", "ssave", "crt", "zrt") if name in serializable else ()):
+                for op in ("rt", "save") + (("srt", "ssave", "crt", "zrt", "zsv") if name in serializable else ()):
                     line = f"{op} {name} {tk}"
                     casesA.append(line)
                     expect[line] = "throw"
@@ -437,14 +437,16 @@ def main():
             values.append((name, nv))
             ntk = " ".join(toks(t, nv))
             arch = hexs0(py_save(t, nv))
-            for op in ("rt", "rt+", "save") + (("srt", "srt+", "ssave", "crt", "zrt", "crt+", "zrt+") if name in serializable else ()):
+            for op in ("rt", "rt+", "save") + (("srt", "srt+", "ssave", "crt", "zrt", "crt+", "zrt+", "zsv") if name in serializable else ()):
+                if op == "zsv" and i % 4:
+                    continue
                 if op.endswith("+") and i % 3:
                     continue
                 line = f"{op} {name} {tk}"
                 casesA.append(line)
                 if op in ("rt", "rt+"):
                     expect[line] = f"ok {ntk} eof=1"
-                elif op in ("srt", "srt+", "crt", "zrt", "crt+", "zrt+"):
+                elif op in ("srt", "srt+", "crt", "zrt", "crt+", "zrt+", "zsv"):
                     expect[line] = f"ok {ntk}"
                 else:
                     expect[line] = arch
@@ -460,6 +462,17 @@ def main():
             line = f"{op} {name} {ntk}"
             casesA.append(line)
             expect[line] = f"ok {ntk} eof=1" if op == "rt" else hexs0(py_save(t, nv))
+    # the session's save_data limit (2 MiB per value): the serialised object just below, at and above it,
+    # through store_data, save(), a new request's load() and fetch_data
+    LIM = 2 * 1024 * 1024
+    for name, n in (("B.s", LIM - 4 - 1), ("B.s", LIM - 4), ("B.s", LIM - 4 + 1)) + ((("B.L.s", LIM - 12 - 4 - 1), ("B.L.s", LIM - 12 - 4)) if thorough else ()):
+        t = types[name]
+        pay = rbytes(rng, n)
+        nv = [pay] if name == "B.L.s" else pay
+        ntk = " ".join(toks(t, nv))
+        line = f"zsv {name} {ntk}"
+        casesA.append(line)
+        expect[line] = f"ok {ntk}" if len(py_save(t, nv)) < LIM else "toolong"
     # json texts that are not in the writer's canonical form (blanks, unsorted / duplicate keys, escapes, exponents,
     # the parser's extensions): no python oracle, model (C11) and code must agree on the normalised text
     for txt in (b' { "b" : 1 , "a" : [ 1 , 2 ] } ', b'{"a":1,"a":2}', b'"\\u00e9\\n\\t\\/"', b'[1e3,1E-2,-0.0,12345678901234567890]', b'[1,]', b'01',
@@ -584,7 +597,7 @@ def main():
             continue
         w = cs.split()
         op = w[0].rstrip("+")
-        if op in ("rt", "srt", "crt", "zrt", "save", "ssave"):
+        if op in ("rt", "srt", "crt", "zrt", "zsv", "save", "ssave"):
             if cs in expect and o != expect[cs]:
                 bad.append((k, "round trip / serialization differs from the value (python oracle)"))
         elif op in ("load", "sload", "load2"):
@@ -625,7 +638,7 @@ def main():
         for (k, l), o in zip(jl, jout + ["<none>"] * (len(jl) - len(jout))):
             if o != "1":
                 bad.append((k, "Spec.loadOutputOk false on the implementation's result (cursor outside, ill-formed value, or consumed bytes are not the value's serialization)"))
-    c.extra_cov["judged_impl_outputs"] = len(jl) + sum(1 for cs in cases if cs.split(" ", 1)[0].rstrip("+") in ("rt", "srt", "crt", "zrt", "save", "ssave", "ops"))
+    c.extra_cov["judged_impl_outputs"] = len(jl) + sum(1 for cs in cases if cs.split(" ", 1)[0].rstrip("+") in ("rt", "srt", "crt", "zrt", "zsv", "save", "ssave", "ops"))
 
     for k, err in crashes:
         summ = [l.strip() for l in err.splitlines() if "SUMMARY" in l or "runtime error" in l or "ERROR: AddressSanitizer" in l]
